@@ -587,6 +587,11 @@ func convoScript(r *rand.Rand, counts [5]int, tailClass int) *peer.Script {
 			ch.TEID = []uint32{0, 1, 0xffffffff, 0x80000000}[r.Intn(4)]
 		}
 		ch.UPFIP = net.IPv4(10, 200, byte(r.Intn(256)), byte(1+r.Intn(254))).String()
+		if r.Intn(3) == 0 {
+			// authorized QoS rules of 256 octets and more (LV-E: two length octets), up to what the 2048-octet receive
+			// buffer of EstablishPDU leaves room for
+			ch.QosExtra = []int{22, 23, 24, 30, 51, 76, 100, 150}[r.Intn(8)]
+		}
 		s.UEs = append(s.UEs, ch)
 	}
 	return s
